@@ -71,6 +71,17 @@ CHECKS = {
         "Trusted: the reference interpreter (Python loops over the real stepper). Tolerance 1e-10 relative for XLA re-association.",
         "DESIGN.md §4 C06",
     ),
+    "C07": (
+        "bounded exhaustive exploration: full Jacobians (all basis tangents and cotangents, linearity lift in the tangent space) on a lattice of base points, forward vs reverse vs Richardson-controlled finite differences; every constructor parameter differentiated through the constructor",
+        "For every catalogue stepper x orders x small grids x base points {zero, constant, single mode, superposition, ternary} the complete Jacobian is "
+        "computed by jacfwd and by jacrev and compared entrywise (the adjoint identity for every tangent/cotangent pair), every column is compared "
+        "with central finite differences (tolerance from a Richardson pair), finiteness is required wherever the step is finite, and for linear "
+        "steppers the Jacobian must equal the map applied to every grid delta. Rollouts of length 1-3 get the same treatment. Every float "
+        "constructor parameter of every class (and dt) is differentiated through the constructor by jvp and by reverse mode and compared with "
+        "central differences at several base points.",
+        "Trusted: central finite differences with Richardson error control (h=1e-5). Bounded lattice of base points (derivatives are state dependent); 3D only for the 3D-only classes.",
+        "DESIGN.md §4 C07",
+    ),
     "C08": (
         "bounded exhaustive exploration: full symmetry-group enumeration (all N^D shifts, all D! axis permutations, all embedding axes) x state lattice, differential oracle on the real code",
         "For every catalogue entry (every public stepper class and flag variant) x order 0-4 x D x odd/even N the stepper is applied to ALL grid "
@@ -202,7 +213,7 @@ CHECKS = {
     ),
 }
 
-NOT_YET = "harness not built yet in this session (planned, see DESIGN.md §4)"
+NOT_YET = "no harness"
 
 
 def build():
